@@ -4,7 +4,7 @@
    Model: Model/NameFormat.v (pybtex/bibtex/names.py, builtins.py format.name$);
    independent definitions (balanced, level1_letter_runs, legal_group, interleave, seps_rule): Spec/NameFormat.v. *)
 From Pybtex Require Import Base.Prelude Base.PyChar Base.PyStr Model.BibtexStr Model.Names Model.NameFormat
-  Spec.NameFormat Proofs.NameFormatParse Proofs.NameFormatFmt Proofs.NameFormatGrammar Proofs.NameFormatAbbrev.
+  Spec.NameFormat Proofs.NameFormatParse Proofs.NameFormatFmt Proofs.NameFormatGrammar Proofs.NameFormatAbbrev Proofs.NameFormatRules Proofs.NameFormatAbbrevBraced.
 
 (* the format parser terminates within its fuel and raises no foreign exception: every string
    is either parsed or rejected with a pybtex error *)
@@ -60,13 +60,17 @@ Theorem format_no_crash : forall f p,
 Proof. exact format_person_no_crash. Qed.
 Print Assumptions format_no_crash.
 
-(* the same for the built-in, relative to Person(name) (C04's obligation) *)
-Theorem format_name_n_no_crash_partial : forall (f : str),
-  (forall nm, person_of_string nm <> Crash /\ person_of_string nm <> OutOfFuel) ->
-  forall names n,
+(* the same for format_name(name, format) and for the format.name$ built-in: with C04's
+   person_of_string_total (Person() never raises a foreign exception) nothing is assumed any more *)
+Theorem format_name_no_crash : forall (name f : str),
+  (exists out, format_name name f = Ok out) \/ (exists c l, format_name name f = PyErr c l).
+Proof. exact format_name_no_crash_thm. Qed.
+Print Assumptions format_name_no_crash.
+
+Theorem format_name_n_no_crash : forall (f names : str) n,
   (exists out, format_name_n names n f = Ok out) \/ (exists c l, format_name_n names n f = PyErr c l).
-Proof. exact format_name_no_crash. Qed.
-Print Assumptions format_name_n_no_crash_partial.
+Proof. exact format_name_n_no_crash_thm. Qed.
+Print Assumptions format_name_n_no_crash.
 
 (* the name index: out of range is a BibTeX error (was IndexError / wrap-around before fix
    703bfb1), in range selects the n-th name of the list *)
@@ -118,6 +122,101 @@ Theorem abbrev_hyphen : forall w d, no_lbrace w = true ->
 Proof. exact abbrev_hyphen_thm. Qed.
 Print Assumptions abbrev_hyphen.
 
+(* ---- round 2: the rules over BibTeX's text length (Spec/BibtexStrSpec.text_len, tied to
+        bibtex_len by C12's len_spec): measuring anything else -- len(), say -- contradicts these ---- *)
+
+(* join = interleaving by the Spec rule, the first token measured in BibTeX text characters *)
+Theorem join_ties_spec : forall (ws : list str) tie sp out, join_words ws tie sp = Ok out ->
+  out = interleave ws (seps_rule (length ws) (Nat.ltb (text_len (hd [] ws)) 3) tie sp).
+Proof. exact join_ties_text_len. Qed.
+Print Assumptions join_ties_spec.
+
+(* the Spec rule in words: the separator after token i of n is the tie exactly before the last
+   token and after a short first token *)
+Theorem sep_rule_meaning : forall n b (tie sp : str) i, tie <> sp ->
+  (sep_rule n b tie sp i = tie <-> (S (S i) = n \/ (i = 0 /\ b = true))).
+Proof. exact sep_rule_meaning_thm. Qed.
+Print Assumptions sep_rule_meaning.
+
+(* the whole rule for a part with a letter and a non-empty name part *)
+Theorem part_format_spec : forall np p c names out, np_char np = Some c -> get_names c p = Ok names ->
+  names <> [] -> format_name_part np p = Ok out ->
+  exists toks disc,
+    (if np_abbr np then map_res (fun n => bibtex_abbreviate n (np_delim np)) names = Ok toks else toks = names) /\
+    length toks = length names /\
+    disc_spec (np_tie np) (np_pre np ++ joined_spec np toks ++ np_post np) disc /\
+    out = np_pre np ++ joined_spec np toks ++ np_post np ++ disc.
+Proof. exact part_format_spec_thm. Qed.
+Print Assumptions part_format_spec.
+
+(* end to end, no explicit separator: the tokens (with a period each when abbreviating) are
+   separated by a tie exactly after a first token of BibTeX text length < 3 and before the last
+   token, by a space elsewhere *)
+Theorem tie_rule_end_to_end : forall np p c names out, np_char np = Some c -> get_names c p = Ok names ->
+  np_delim np = None -> names <> [] -> format_name_part np p = Ok out ->
+  exists toks disc,
+    (if np_abbr np then map_res (fun n => bibtex_abbreviate n None) names = Ok toks else toks = names) /\
+    length toks = length names /\
+    out = np_pre np
+          ++ interleave toks (seps_rule (length toks) (Nat.ltb (text_len (hd [] toks)) 3)
+                                        (dots (np_abbr np) ++ [c_tilde]) (dots (np_abbr np) ++ [c_space]))
+          ++ np_post np ++ disc.
+Proof. exact tie_rule_end_to_end_thm. Qed.
+Print Assumptions tie_rule_end_to_end.
+
+(* an explicit separator -- the EMPTY one is a case of its own, not "no separator" -- is what
+   stands between the tokens (and between the hyphen-separated letters of an abbreviated token):
+   no tie, space or period is inserted; with "{}" the tokens are simply concatenated *)
+Theorem explicit_separator_used : forall np p c names d out, np_char np = Some c -> get_names c p = Ok names ->
+  np_delim np = Some d -> names <> [] -> format_name_part np p = Ok out ->
+  exists toks disc,
+    (if np_abbr np then map_res (fun n => bibtex_abbreviate n (Some d)) names = Ok toks else toks = names) /\
+    out = np_pre np ++ join d toks ++ np_post np ++ disc /\
+    (d = [] -> out = np_pre np ++ concat toks ++ np_post np ++ disc).
+Proof. exact explicit_separator_used_thm. Qed.
+Print Assumptions explicit_separator_used.
+
+(* and the parser keeps "{}" (Some "") apart from no separator (None) *)
+Theorem empty_separator_distinct : forall (pre ls post r : str),
+  verb pre -> legal_letters ls = true -> verb post -> is_lbrace (hd 0%N post) = false ->
+  parse_name_part (pre ++ ls ++ c_lbrace :: c_rbrace :: post ++ c_rbrace :: r) = Ok ((pre, Some (lower ls), Some [], post), r) /\
+  parse_name_part (pre ++ ls ++ post ++ c_rbrace :: r) = Ok ((pre, Some (lower ls), None, post), r).
+Proof. exact empty_separator_distinct_thm. Qed.
+Print Assumptions empty_separator_distinct.
+
+(* the discretionary tie: the part's output is its body followed by nothing (no trailing tie),
+   by a tie iff the body has fewer than 3 BibTeX text characters, else a space ("~"), or by a
+   tie always ("~~") *)
+Theorem discretionary_tie_rule : forall np p c names out, np_char np = Some c -> get_names c p = Ok names ->
+  names <> [] -> format_name_part np p = Ok out ->
+  exists body disc, out = body ++ disc /\
+    match np_tie np with
+    | 1 => disc = if Nat.ltb (text_len body) 3 then [c_tilde] else [c_space]
+    | 2 => disc = [c_tilde]
+    | _ => disc = []
+    end.
+Proof. exact discretionary_tie_rule_thm. Qed.
+Print Assumptions discretionary_tie_rule.
+
+(* hyphen-aware abbreviation of ANY balanced word (braces, special characters): the word is its
+   pieces joined by hyphens, every piece balanced (so the splitting hyphens are at brace level 0),
+   and the result interleaves the delimiter between the non-empty letters, each the first letter or
+   special character among the text characters of its stripped piece (C12: split_never_in_braces,
+   first_letter_spec) *)
+Theorem abbrev_hyphen_braced : forall w d out, Spec.BibtexStrSpec.balanced w -> bibtex_abbreviate w d = Ok out ->
+  (w = [] /\ out = []) \/
+  exists pieces letters,
+    w = join [c_hyphen] pieces /\ Forall Spec.BibtexStrSpec.balanced pieces /\
+    Forall2 letter_of pieces letters /\
+    out = join (delim_or_default d) (filter nonempty letters).
+Proof. exact abbrev_hyphen_braced_thm. Qed.
+Print Assumptions abbrev_hyphen_braced.
+
+(* C11's and C12's independent notions of brace balance are the same *)
+Theorem balanced_specs_agree : forall s, balanced s <-> Spec.BibtexStrSpec.balanced s.
+Proof. exact balanced_agree. Qed.
+Print Assumptions balanced_specs_agree.
+
 (* ---- non-vacuity ---- *)
 Example unbalanced_example : ~ balanced (s2l "{ff") /\ ~ balanced (s2l "ff}") /\ balanced (s2l "{{x}ff{.}~}").
 Proof. unfold balanced. vm_compute. repeat split; congruence. Qed.
@@ -161,4 +260,20 @@ Proof. vm_compute. reflexivity. Qed.
 Example abbrev_example :
   bibtex_abbreviate (s2l "Jean-Pierre") None = Ok (s2l "J.-P") /\ bibtex_abbreviate (s2l "Jean--Pierre") (Some []) = Ok (s2l "JP")
   /\ no_lbrace (s2l "Jean-Pierre") = true.
+Proof. vm_compute. auto. Qed.
+(* a first token that is long for len() but short for BibTeX (one special character): tie *)
+Example text_len_not_len_example :
+  format_name (s2l "{\\'E} Bb Cc Dd Ee") (s2l "{ff}") = Ok (s2l "{\\'E}~Bb Cc~Dd", false) /\
+  format_name (s2l "Abc Bb Cc Dd Ee") (s2l "{ff}") = Ok (s2l "Abc Bb Cc~Dd", false) /\
+  text_len (s2l "{\\'E}") = 1 /\ length (s2l "{\\'E}") = 6.
+Proof. vm_compute. auto. Qed.
+Example empty_separator_example :
+  format_name (s2l "Jean-Pierre Marie Xu") (s2l "{f{}}") = Ok (s2l "JPM", false) /\
+  format_name (s2l "Jean-Pierre Marie Xu") (s2l "{f}") = Ok (s2l "J.-P.~M", false) /\
+  format_name (s2l "Jean-Pierre Marie Xu") (s2l "{ff{}}") = Ok (s2l "Jean-PierreMarie", false) /\
+  format_name (s2l "Ab Cd Xu") (s2l "{f~}|{f~~}|{ff~}") = Ok (s2l "A.~C |A.~C~|Ab~Cd ", false).
+Proof. vm_compute. auto. Qed.
+Example abbrev_braced_example :
+  bibtex_abbreviate (s2l "{\\'E}douard-{Jean-Paul}") None = Ok (s2l "{\\'E}.-J") /\
+  Spec.BibtexStrSpec.balanced (s2l "{\\'E}douard-{Jean-Paul}").
 Proof. vm_compute. auto. Qed.
